@@ -500,6 +500,20 @@ Definition recycle_partial (keep : bool) (d : list row) (i p : nat) (att : bool)
       Some (upd d2 i (recycle_partial_row keep g cl nd))
   end.
 
+(* step i is among the (indirect) creators of step j: the walk of the creator links Workflow.define_step makes
+   before it refuses "Step cannot define its own creator" (only detached creators get that far) *)
+Fixpoint creator_reaches (fuel : nat) (d : list row) (j i : nat) : bool :=
+  match fuel with
+  | O => false
+  | S f => match nth_error d j with
+           | Some x => match creator x with
+                       | Some c => Nat.eqb c i || creator_reaches f d c i
+                       | None => false
+                       end
+           | None => false
+           end
+  end.
+
 (* keep: see recycle_full; rej = the other repaired shape (generated define_rejects_inflight):
    Workflow.define_step refuses to declare a detached step again while its job is in flight. *)
 Definition step_gen (keep rej : bool) (s : sys) (e : event) : option sys :=
@@ -560,6 +574,7 @@ Definition step_gen (keep rej : bool) (s : sys) (e : event) : option sys :=
               | Some x =>
                   if attached x then None
                   else if Nat.eqb i p then None
+                  else if define_rejects_own_creator && creator_reaches (length d) d p i then None
                   else if rej && in_flight x then None
                   else match (if outs_match (sig x) g then recycle_full keep d i p (attached px) x cl nd eo
                               else recycle_partial keep d i p (attached px) x g cl nd) with
